@@ -328,7 +328,7 @@ def json_src(v):
 def run(ctx):
     thorough = ctx.tier == "thorough"
     rng = random.Random(ctx.seed)
-    n = 12000 if thorough else 2500
+    n = 40000 if thorough else 2500
     ctx.tlc_ok("OutputFormat", CFG % (n, 2), workers=1, timeout=3000, heap="8g")
     cases = ctx.read_ndjson("c25_cases.ndjson")
     for c in cases:     # a single generated row is written once or twice (buffers are reused between rows)
@@ -368,7 +368,7 @@ def run(ctx):
     d = os.path.join(ctx.scratch, "c25")
     os.makedirs(d)
     jobs, meta = [], []
-    want = 700 if thorough else 160
+    want = 1500 if thorough else 160
     order = single[:]
     mixed = []
     for i, c in enumerate(order):      # interleave batches with the single rows
